@@ -89,6 +89,8 @@ def worker_reset():
 # pools (deliberately small and overlapping)
 # ======================================================================================
 
+# (Two-field equations: the rhs is a LIST of (name, expression) pairs whose names are deliberately not in alphabetical order -
+# a dict would be re-ordered by the sorted JSON of replay files, and alphabetical names would hide every bug that sorts them.)
 GRID_FAMILIES = [
     # 1-d: geometrically equal grids of different class, equal shape with different bounds / periodicity,
     # bounds that differ only in -1 vs -2 (equal float hashes in CPython)
@@ -148,9 +150,9 @@ EQ_POOL = [
                "consts": {"k": r.choice([0.5, 1, -1, -2])}, "bc": _bc(r)},
     lambda r: {"cls": "PDE", "rhs": {"c": "laplace(c) + gradient_squared(c)"}, "bc": _bc(r),
                "bc_ops": {"c:gradient_squared": _bc(r)}},
-    lambda r: {"cls": "PDE", "rhs": {"u": "laplace(v) + k", "v": "laplace(u) - u"}, "consts": {"k": r.choice([0, 1])}, "bc": _bc(r)},
+    lambda r: {"cls": "PDE", "rhs": [["u", "laplace(c) + k"], ["c", "laplace(u) - u"]], "consts": {"k": r.choice([0, 1])}, "bc": _bc(r)},
     # rank-agnostic right-hand sides: the same equation object may meet collections whose members have other ranks
-    lambda r: {"cls": "PDE", "rhs": {"a": "-k * a", "b": "-2 * b"}, "consts": {"k": r.choice([1, 0.5])}, "bc": _bc(r), "any_rank": True},
+    lambda r: {"cls": "PDE", "rhs": [["b", "-k * b"], ["a", "-2 * a"]], "consts": {"k": r.choice([1, 0.5])}, "bc": _bc(r), "any_rank": True},
     lambda r: {"cls": "PDE", "rhs": {"a": "-a + k"}, "consts": {"k": r.choice([0, 1])}, "bc": _bc(r), "any_rank": True},
     # equations that use a helper function from the user's (one, shared) dictionary of functions
     lambda r: {"cls": "PDE", "rhs": {"c": "laplace(c) + double(c)"}, "bc": _bc(r), "user_funcs": True},
